@@ -1,2 +1,38 @@
 import PiqpModel
-def main : IO Unit := IO.println "driver"
+import PiqpModel.Driver.KKTCmd
+open Piqp Piqp.Driver
+
+structure DState where
+  km : Option KM := none
+
+def handle (st : DState) (line : String) : DState × List String :=
+  let toks := (line.trimAscii.toString.splitOn " ").filter (· ≠ "")
+  match toks with
+  | [] => (st, [])
+  | "case" :: rest => (st, ["case " ++ " ".intercalate rest])
+  | cmd :: args =>
+    if cmd.startsWith "#" then (st, [])
+    else if cmd = "kkt.new" then
+      match runP kmNew args with
+      | .ok km => ({ st with km := some km }, [])
+      | .error e => (st, ["error " ++ e])
+    else if cmd.startsWith "kkt." then
+      match st.km with
+      | none => (st, ["error no kkt machine"])
+      | some km =>
+        match runP (kmStep km cmd) args with
+        | .ok (km', out) => ({ st with km := some km' }, out)
+        | .error e => (st, ["error " ++ e])
+    else (st, ["error unknown command " ++ cmd])
+
+partial def loop (h : IO.FS.Stream) (out : IO.FS.Stream) (st : DState) : IO Unit := do
+  let line ← h.getLine
+  if line.isEmpty then return ()
+  let (st', outs) := handle st line
+  for o in outs do out.putStrLn o
+  loop h out st'
+
+def main : IO Unit := do
+  let stdin ← IO.getStdin
+  let stdout ← IO.getStdout
+  loop stdin stdout {}
